@@ -144,16 +144,10 @@ def monitors(pools, tasks, recs, mode):
             cur = exp if exp is not None else body[0]['lw']
             prev = None
             boosted = False
-            nends = 0          # phase ends (yield / boost / suspend / yield_to) seen so far
             for r in body:
                 if r['pool'] == t['pool'] and r['lw'] != cur:
                     what = {None: 'initial', 'Y': 'after_yield', 'B': 'after_boost_yield', 'U': 'after_suspend',
                             'E': 'within_phase', 'K': 'after_yield_to'}.get(prev, 'other')
-                    if what == 'after_suspend' and nends == 1:
-                        # the suspension ended the task's FIRST phase: last_worker_thread_num is still -1 when a
-                        # retry helper (set_active_state) reads it, so the wake-up gets a round-robin hint
-                        # (known finding, reproduces in a few percent of the runs)
-                        what = 'after_first_phase_suspend'
                     if pool['elastic']:
                         sig = 'C10:static_hint:elastic_divert'
                     elif uid in yt_targets and yt_targets[uid] < r['seq']:
@@ -169,8 +163,6 @@ def monitors(pools, tasks, recs, mode):
                     break
                 if r['kind'] == 'B':
                     boosted = True
-                if r['kind'] in ('Y', 'B', 'U', 'K'):
-                    nends += 1
                 prev = r['kind']
     return hits, nplace
 
@@ -271,7 +263,9 @@ def run(ctx):
               'std_thread jobs whose callables yield, boost-yield, suspend (semaphore, mutex) and spawn children; every callable '
               'records pool, local/global worker, task id, OS thread id in every phase; monitors check inline/pool/static-hint '
               'placement; the extracted model replays the trace as an acceptor; non-trivial = a case with a static pool, hinted '
-              'tasks and at least one suspension or yield; plus four scenarios (E6 elastic, yield_to, boost with H<W, shared-priority with an out-of-range hint); '
+              'tasks and at least one suspension or yield; plus five scenarios (E6 elastic, yield_to, boost with H<W, shared-priority with an out-of-range hint, '
+              'firstsusp: several hundred tasks of a static pool whose very first action is a contended pika::mutex, the unlocking tasks being the wakers, with '
+              'hook 205 keeping a waiter active after it enqueued itself and hook 1001 holding the retry helper between its read of the last worker and its retry); '
               'bulk cases (harness/c10_bulk.cpp): bulk on pool A (two thirds static policies, W 1-5) after schedule/then/transfer_just/continues_on/bulk predecessors, '
               'hints and priorities, started from OS threads and tasks; every f(i) records the calling task_function (hook 1103), pool and worker; monitors + the extracted '
               'acceptor bulk_allowed; non-trivial = a static bulk pool with at least one call from a spawned worker task')
@@ -282,10 +276,11 @@ def run(ctx):
     rng = random.Random(ctx.seed)
     if ctx.tier == 'quick':
         ncases, njobs = 48, 24
-        scen = [('e6', 2500), ('e6', 2500), ('yieldto', 100), ('yieldto', 100), ('yieldto', 100), ('boost', 12), ('sphint', 3)]
+        scen = [('e6', 2500), ('e6', 2500), ('yieldto', 100), ('yieldto', 100), ('yieldto', 100), ('boost', 12), ('sphint', 3),
+                ('firstsusp', 400)] + [('firstsusp', 400)] * 4
     else:
         ncases, njobs = 800, 40
-        scen = [('e6', 3000), ('yieldto', 100), ('boost', 24)] * 4 + [('sphint', 3)]
+        scen = [('e6', 3000), ('yieldto', 100), ('boost', 24)] * 4 + [('sphint', 3)] + [('firstsusp', 400)] * 12
     cases = [('rand', njobs)] * ncases + scen
     base = rng.randrange(1, 1 << 30)
     all_in, all_out = [], []
